@@ -18,7 +18,7 @@ MCCfg == (P :> [localAS |-> <<0, 0, 0, 1>>, remoteAS |-> <<0, 0, 0, 2>>, localID
                 hold |-> 90, idleHold |-> 1, connRetry |-> 1, passive |-> MCPassive,
                 localAddr |-> "", remote |-> "r", caps |-> <<>>, openReply |-> NoReply,
                 noHandler |-> FALSE, handlerReplies |-> <<>>, estWrites |-> <<>>,
-                handlerWrites |-> <<>>])
+                handlerWrites |-> <<>>, gates |-> <<>>])
 
 ConnIds == {"c1", "c2", "c3", "c4"}
 NextConn == CHOOSE c \in ConnIds : c \notin DOMAIN conn /\
@@ -92,5 +92,5 @@ AllInv ==
 View == <<srv, calls, pm,
           [p \in Peers |-> [d \in Dirs |-> [fsm[p][d] EXCEPT !.sess = IF @ = 0 THEN 0 ELSE 1]]],
           conn, [p \in Peers |-> [dial[p] EXCEPT !.k = IF @ = 0 THEN 0 ELSE 1]],
-          [gh EXCEPT !.nsess = [p \in Peers |-> 0]]>>
+          [gh EXCEPT !.nsess = [p \in Peers |-> 0], !.ncb = [p \in Peers |-> [n \in CbNames |-> 0]]]>>
 =============================================================================
